@@ -819,6 +819,78 @@ theorem C11_fieldOrder_sorted (tags : List FieldTag) :
     | some x => cases x <;> simp at hb'
   | some x => cases x <;> simp at hb
 
+
+/-- tag order, ties by declaration order -/
+def tagLt (a b : Nat × Int) : Prop := a.2 < b.2 ∨ (a.2 = b.2 ∧ a.1 < b.1)
+
+theorem insertTagged_stable (x : Nat × Int) (l : List (Nat × Int)) (hl : l.Pairwise tagLt)
+    (hx : ∀ z ∈ l, x.1 < z.1) : (insertTagged x l).Pairwise tagLt := by
+  induction l with
+  | nil => simp [insertTagged]
+  | cons y ys ih =>
+    have ⟨hy, hys⟩ := List.pairwise_cons.1 hl
+    simp only [insertTagged]
+    split
+    · rename_i hle
+      refine List.pairwise_cons.2 ⟨fun z hz => ?_, hl⟩
+      have hxz := hx z hz
+      rcases List.mem_cons.1 hz with e | e
+      · subst e; unfold tagLt; omega
+      · have := hy z e; unfold tagLt at this ⊢; omega
+    · rename_i hgt
+      refine List.pairwise_cons.2 ⟨fun z hz => ?_, ih hys (fun z hz => hx z (by simp [hz]))⟩
+      have hz' := (insertTagged_perm x ys).mem_iff.1 hz
+      rcases List.mem_cons.1 hz' with e | e
+      · subst e; unfold tagLt; omega
+      · exact hy z e
+
+theorem sortTagged_stable (l : List (Nat × Int)) (h : l.Pairwise (fun a b => a.1 < b.1)) :
+    (sortTagged l).Pairwise tagLt := by
+  induction l with
+  | nil => simp [sortTagged]
+  | cons x xs ih =>
+    have ⟨hx, hxs⟩ := List.pairwise_cons.1 h
+    exact insertTagged_stable x _ (ih hxs)
+      (fun z hz => hx z ((sortTagged_perm xs).mem_iff.1 hz))
+
+theorem taggedOf_ascending (tags : List FieldTag) :
+    (taggedOf tags).Pairwise (fun a b => a.1 < b.1) := by
+  unfold taggedOf
+  refine List.Pairwise.filterMap _ ?_ (zipIdx_pairwise tags 0)
+  intro a a' hlt b hb b' hb'
+  obtain ⟨t, i⟩ := a
+  obtain ⟨t', i'⟩ := a'
+  cases t with
+  | none => simp at hb
+  | some x =>
+    cases x with
+    | none => simp at hb
+    | some k =>
+      cases t' with
+      | none => simp at hb'
+      | some x' =>
+        cases x' with
+        | none => simp at hb'
+        | some k' =>
+          simp only [Option.some.injEq] at hb hb'
+          subst hb; subst hb'; exact hlt
+
+/-- **Field order is a stable sort of the declaration order**: the tagged fields come first, by
+    ascending tag and, among equal tags, in declaration order; the untagged fields follow in
+    declaration order — for any number of fields. -/
+theorem C11_fieldOrder_stable (tags : List FieldTag) :
+    ∃ (ts : List (Nat × Int)) (us : List Nat), fieldOrder tags = ts.map (·.1) ++ us ∧
+      ts.Perm (taggedOf tags) ∧ ts.Pairwise tagLt ∧ us = untaggedOf tags ∧ us.Pairwise (· < ·) := by
+  obtain ⟨ts, us, h1, h2, _, h4, h5⟩ := C11_fieldOrder_sorted tags
+  refine ⟨sortTagged (taggedOf tags), untaggedOf tags, fieldOrder_eq tags, sortTagged_perm _,
+    sortTagged_stable _ (taggedOf_ascending tags), rfl, ?_⟩
+  rw [← h4]; exact h5
+
+/-- a struct of 16 fields, tags interleaved with untagged and ignored fields (harness `c11W16`) -/
+example : fieldOrder [none, some (some 3), none, none, some (some 1), none, some none, none, none,
+    some (some 2), none, none, none, some (some 7), none, none]
+    = [4, 9, 1, 13, 0, 2, 3, 5, 7, 8, 10, 11, 12, 14, 15] := by decide
+
 example : fieldOrder [some (some 2), some none, some (some (-1)), none, none] = [2, 0, 3, 4] := by decide
 
 
